@@ -45,7 +45,7 @@ META = {
                           'medium_literal_file', 'medium_pickle', 'digests_compared',
                           'Context.__getstate__', 'Context.__setstate__', 'Lattice.__getstate__',
                           'Lattice.__setstate__', 'Relation.__reduce__', 'Vectors.__reduce__',
-                          'child_processes', 'sibling_histories'],
+                          'child_processes', 'sibling_histories', 'returned_dict_edited_in_place'],
     'shards': {'quick': 16, 'thorough': 16},
     'case_cpu_s': {'quick': 600, 'thorough': 3000},
     'assumptions': ['byte-level layout of JSON/pickle and container types (list vs tuple) are not judged'],
@@ -426,6 +426,16 @@ def run_case(concepts, case, spec):
     call(ctx.todict, None)
     if d is RAISED:
         return
+    # the caller owns what todict() returns: editing it in place (e.g. to build a raw=True
+    # input) must not change what the context serializes next
+    dm = call(ctx.todict)
+    if dm is not RAISED and isinstance(dm.get('lattice'), list) and isinstance(dm.get('context'), list):
+        rng.shuffle(dm['lattice'])
+        dm['context'].reverse()
+        dm['lattice'].append(dm['lattice'][0])
+        COL.count('returned_dict_edited_in_place')
+        call(ctx.todict)
+        call(ctx.todict, None)
     if not big:
         same_triple('fromdict', call(C.fromdict, copy.deepcopy(d)), sh)
         same_triple('fromdict-require', call(C.fromdict, copy.deepcopy(d), require_lattice=True), sh)
